@@ -233,6 +233,23 @@ func GenericComparison(left, right interface{},
 		return !reflect.DeepEqual(left, right), nil
 	}
 
+	// two integers are compared as integers: nanosecond timestamps do not fit a float64 exactly
+	if l, ok := left.(int64); ok {
+		if r, ok2 := right.(int64); ok2 {
+			switch op {
+			case LT:
+				return l < r, nil
+			case LTE:
+				return l <= r, nil
+			case GT:
+				return l > r, nil
+			case GTE:
+				return l >= r, nil
+			default:
+			}
+		}
+	}
+
 	var lFloat, rFloat float64
 	var lInt, rInt int64
 	lFloat, err = GetValueAsFloat64(left)
